@@ -104,8 +104,10 @@ class Table(SQLObject, DBMLObject):
     def delete_index(self, i: Union[Index, int]) -> Index:
         if isinstance(i, Index):
             if i in self.indexes:
-                i.table = None
-                return self.indexes.pop(self.indexes.index(i))
+                # indexes are found by equality: detach the one that is actually removed
+                result = self.indexes.pop(self.indexes.index(i))
+                result.table = None
+                return result
             else:
                 raise IndexNotFoundError(f'Index {i} if missing in the table')
         elif isinstance(i, int):
